@@ -13,7 +13,7 @@ from findings import Findings
 from vlib import log
 
 ASSUME = ["the oracle is trivial (the worker recovered a panic / the process died abnormally / a generous time budget was exceeded); TLA+ contributes the systematic input spaces (Gen_Matrix, Gen_Mut, Gen_Prog) and the totality of the design model, the verdict itself is an exploration",
-          "a run that ends through os.Exit with a diagnosed failure (exit 17, 255) or a parse error is a permitted outcome",
+          "a run that gosk itself ends through os.Exit after a 'GOSK : ...' message (any status) or with a parse error is a permitted outcome; a run the Go runtime ends (fatal error, unrecovered panic) is not",
           "time budget per input: 20 s for inputs of at most a few hundred tokens (the unchanged tree needs milliseconds); scale series: 60 s (quick) / 300 s (thorough) per point, a series stops at its first abnormal point, and time(4n)/time(n) (minimum of up to 3 runs, only judged when the larger point needs more than 2 s) must stay below 8 (quadratic would be 16)"]
 
 TOK = {"comma": ",", "colon": ":", "lbracket": "[", "rbracket": "]", "plus": "+", "minus": "-", "star": "*", "slash": "/", "lparen": "(", "rparen": ")",
@@ -60,6 +60,17 @@ def gen_mut(ctx, grain):
     cs = ctx.printed(out, "CASE")
     cs.sort(key=lambda c: json.dumps(c, sort_keys=True))
     return cs
+
+
+def died(e):
+    """The process ended by itself inside the job.  That is a permitted outcome if gosk did it (os.Exit after a 'GOSK : ...' message,
+    whatever the status), and abnormal if the Go runtime did (fatal error / unrecovered panic: status 2, runtime text on the output)."""
+    so = e.get("stdout", "")
+    if "fatal error:" in so or "panic:" in so or "goroutine " in so:
+        return True
+    if "GOSK :" in so:
+        return False
+    return e.get("exit") not in (17, 255, 254, 1)
 
 
 def run(ctx):
@@ -145,7 +156,7 @@ def run(ctx):
         st = e.get("status")
         key = st if st != "exit" else "exit%d" % e.get("exit", -1)
         outcomes[key] = outcomes.get(key, 0) + 1
-        bad = st in ("panic", "timeout", "signal") or (st == "exit" and e.get("exit") not in (17, 255, 1))
+        bad = st in ("panic", "timeout", "signal") or (st == "exit" and died(e))
         if bad:
             kind, src = meta[j["id"]]
             viol.append({"id": j["id"], "tags": ["C13"], "why": "abnormal termination: %s %s" % (st, e.get("panic", "")[:120]), "at": "run", "i": 0,
@@ -162,7 +173,7 @@ def run(ctx):
         for _ in range(reps):
             r = ctx.run_jobs([{"id": 1, "src": src, "notrace": True, "maxout": 1}], sequential=True, per_job_timeout=point_budget)[1][-1]
             t, st = r.get("us", 0) / 1e6, r.get("status")
-            if st == "exit" and r.get("exit") not in (17, 255, 1):
+            if st == "exit" and died(r):
                 st = "died"          # the process ended by itself, but not through one of gosk's own diagnosed exits (runtime fatal error)
             best = t if best is None else min(best, t)
             if st not in ("ok", "parse") or t < 0.5:
